@@ -4,6 +4,9 @@ import SMGo.Gen.SM3Const
 import SMGo.Gen.SM4Const
 import SMGo.Gen.SM2Params
 import SMGo.Gen.SM2Tables
+import SMGo.Spec.SM2
+import SMGo.Spec.SM4
+import SMGo.Spec.SM3
 open SMGo
 
 namespace Driver.GenDump
@@ -13,7 +16,59 @@ def hexW (w : Nat) (l : List Nat) : String := Bytes.toHex (l.flatMap (Bytes.ofNa
 def t3 (t : List (List (List (List Nat)))) : String := hexW 8 (t.flatten.flatten.flatten)
 def t2 (t : List (List (List Nat))) : String := hexW 8 (t.flatten.flatten)
 
+/-- the multiplier of entry idx (bit pattern) of sub-table j in a window-subtables-iterations-remainder comb -/
+def combMult (w s it r j idx : Nat) : Nat :=
+  (List.range w).foldl (fun acc t => acc + (idx / 2 ^ t % 2) * 2 ^ (r + j * it + t * s * it)) 0
+
+def montLimbs (v : Nat) : List Nat :=
+  let m := v * 2 ^ 256 % Spec.SM2.p
+  [m % 2 ^ 64, m / 2 ^ 64 % 2 ^ 64, m / 2 ^ 128 % 2 ^ 64, m / 2 ^ 192 % 2 ^ 64]
+
+def pointLimbs (P : Spec.SM2.Point) : List Nat × List Nat :=
+  match P with
+  | some (x, y) => (montLimbs x, montLimbs y)
+  | none => ([0, 0, 0, 0], [0, 0, 0, 0])
+
+/-- the table the derivation gives, in the code's layout [j][x|y][idx-1][limb] -/
+def specComb (w s it r : Nat) : String :=
+  hexW 8 ((List.range s).flatMap (fun j =>
+    let pts := (List.range (2 ^ w - 1)).map (fun i => pointLimbs (Spec.SM2.smul (combMult w s it r j (i + 1)) Spec.SM2.G))
+    (pts.flatMap (·.1)) ++ (pts.flatMap (·.2))))
+
+def specRem (r : Nat) : String :=
+  let pts := (List.range (2 ^ r - 1)).map (fun i => pointLimbs (Spec.SM2.smul (i + 1) Spec.SM2.G))
+  hexW 8 ((pts.flatMap (·.1)) ++ (pts.flatMap (·.2)))
+
+def specTT (i : Nat) : String :=
+  hexW 4 ((List.range 256).map (fun x => (Spec.SM4.L (BitVec.ofNat 32 (Spec.SM4.sboxAlg x) <<< (24 - 8 * i))).toNat))
+
+def handleSpec (toks : List String) : Option String :=
+  match toks with
+  | ["spec.table", name] =>
+    some (match name with
+    | "sm3.tt" => hexW 4 ((List.range 64).map (fun j => ((Spec.SM3.T j).rotateLeft (j % 32)).toNat))
+    | "sm3.iv" => hexW 4 (Spec.SM3.IV.map (·.toNat))
+    | "sm4.sbox" => hexW 1 ((List.range 256).map Spec.SM4.sboxAlg)
+    | "sm4.s0" => specTT 0
+    | "sm4.s1" => specTT 1
+    | "sm4.s2" => specTT 2
+    | "sm4.s3" => specTT 3
+    | "sm4.ck" => hexW 4 ((List.range 32).map (fun i => (Spec.SM4.CK i).toNat))
+    | "sm4.fk" => hexW 4 (Spec.SM4.FK.map (·.toNat))
+    | "sm2.N" => hexW 32 [Spec.SM2.n]
+    | "sm2.zBytes" => Bytes.toHex (Bytes.ofNatBE 32 Spec.SM2.a ++ Bytes.ofNatBE 32 Spec.SM2.b ++ Bytes.ofNatBE 32 Spec.SM2.Gx ++ Bytes.ofNatBE 32 Spec.SM2.Gy)
+    | "sm2Precomputed_4_2_32" => specComb 4 2 32 0
+    | "sm2Precomputed_6_3_14" => specComb 6 3 14 4
+    | "sm2Precomputed_5_3_17" => specComb 5 3 17 1
+    | "sm2Precomputed_7_3_12" => specComb 7 3 12 4
+    | "sm2Precomputed_6_3_14_Remainder" => specRem 4
+    | "sm2Precomputed_5_3_17_Remainder" => specRem 1
+    | "sm2Precomputed_7_3_12_Remainder" => specRem 4
+    | _ => "unknown-table")
+  | _ => none
+
 def handle (toks : List String) : Option String :=
+  if let some r := handleSpec toks then some r else
   match toks with
   | ["gen.dump", name] =>
     some (match name with
